@@ -757,3 +757,7 @@ def run(ctx):
     for name, fn in (("C03.prefix", r_prefix), ("C03.ctltable", r_ctltable), ("C03.juncture", r_juncture),
                      ("C03.children", r_children), ("C03.order", r_order), ("C03.assign", r_assign), ("C03.occur", r_occur), ("C03.rulehead", r_rulehead), ("C03.type1", r_type1), ("C03.lexical", r_lexical)):
         ctx.guarded(name, lambda c, fn=fn: fn(c, g))
+    # which text literals the parser accepts also depends on the unescaping function the bridge applies to every text literal:
+    # the grammar admits any hex digits after \\u, the function decides which of them denote a scalar value
+    import c07
+    ctx.guarded("C03.unescape", lambda c: c07.r_unescape(c, rid="C03.unescape"))
